@@ -7,7 +7,7 @@ sd=$1; prop=$2; name=$3
 out=/verif/seeded/$name; mkdir -p $out
 pkg=$(grep -m1 '^package ' $sd/demo_test.go | awk '{print $2}')
 case "$pkg" in
-  fix) dir=fix;; encoding) dir=fix/encoding;; simplefixgo) dir=.;; session) dir=session;; memory) dir=storages/memory;; utils) dir=utils;; tests) dir=tests;; *) dir=fix;;
+  fix) dir=fix;; encoding) dir=fix/encoding;; simplefixgo|simplefixgo_test) dir=.;; session) dir=session;; memory) dir=storages/memory;; utils) dir=utils;; tests) dir=tests;; *) dir=fix;;
 esac
 tmp=$(mktemp -d /tmp/govc-confirm-XXXXXX)
 rsync -a --exclude .git /repo/ $tmp/with/; rsync -a --exclude .git /repo/ $tmp/without/
@@ -43,5 +43,5 @@ meta={"property":prop,"name":name,"demo_package_dir":d,
 json.dump(meta,open(out+"/meta.json","w"),indent=1)
 print(name, json.dumps(meta["confirmed"]), "detected=",det!="0")
 PY
-echo "$chk" | grep "obligation .* failed" | sed 's/govc: obligation //' | cut -c1-160 | head -4 > $out/detection.txt
+echo "$chk" | grep " failed: " | cut -c1-200 | head -4 > $out/detection.txt
 rm -rf $tmp
